@@ -209,13 +209,32 @@ def classify(judge, src, mode, cls, detail, budget=300):
                 return False
             o, d = judge.outcome(c, "exec", ct)
             return o == cls and _fkey(o, d) == key
+        # the parser names a line: start from the innermost statement around it that still fails the same way
+        m = re.search(r"line (\d+)\)", str(detail)) if cls == "REJECT" and len(src) > 1500 else None
+        if m:
+            try:
+                ln = int(m.group(1))
+                chain = [n for n in ast.walk(cparse(src, "exec")) if isinstance(n, ast.stmt) and n.lineno <= ln <= (n.end_lineno or n.lineno)]
+                chain.sort(key=lambda n: (n.end_lineno - n.lineno, -n.col_offset))
+                for n in chain[:8]:
+                    cand = ast.get_source_segment(src, n, padded=True)
+                    if cand:
+                        import textwrap
+
+                        cand = textwrap.dedent(cand) + "\n"
+                        if len(cand) < len(small) and still(cand):
+                            small = cand
+                            break
+            except Exception:
+                pass
+        src0, src = src, small
         small, used = reduce_tree(src, still, budget=budget)
         if small is None:
             # surface-dependent: ast.unparse's rendering of the same tree is fine
             small, _ = reduce_text(src, still, budget=budget)
             key = key + ("surface",)
     final_detail = detail
-    if small != src:
+    if small != locals().get("src0", src):
         try:
             final_detail = judge.outcome(small, mode)[1]
         except Exception:
@@ -295,6 +314,8 @@ def named_mechanism(cls, key, small, mode, detail=None):
             return "DIFF/JoinedStr/backslash-escape-inside-a-format-spec-not-decoded"
         if cls == "DIFF" and k1 == "JoinedStr.values" and "format_spec" not in dpath and "\f" in small and any(re.search(r"\{[^{}]*[^=!<>{}]=\s*(![rsa])?(:[^{}]*)?\}", g) for g in fsegs):
             return "DIFF/JoinedStr/self-documenting-field-on-a-line-starting-with-a-form-feed-loses-its-label"
+        if cls == "REJECT" and str(detail).startswith("code: :") and any(isinstance(n, ast.FormattedValue) and n.format_spec is not None and any(isinstance(m, ast.FormattedValue) and m.format_spec is not None and not m.format_spec.values for m in ast.walk(n.format_spec)) for n in nodes):
+            return "REJECT/JoinedStr/empty-format-spec-inside-a-nested-format-spec"
         if cls == "REJECT" and str(detail).startswith("code: yield") and any(isinstance(n, ast.FormattedValue) and any(isinstance(m, (ast.Yield, ast.YieldFrom)) for m in ast.walk(n.value)) for n in nodes):
             return "REJECT/JoinedStr/yield-inside-a-replacement-field"
     if cls == "REJECT" and re.match(r"code: (or|and|if)\b", str(detail)) and any(isinstance(n, ast.Call) and any(isinstance(a, ast.Starred) and isinstance(a.value, (ast.BoolOp, ast.IfExp)) for a in n.args) for n in nodes):
@@ -303,7 +324,7 @@ def named_mechanism(cls, key, small, mode, detail=None):
         return "REJECT/For/starred-element-in-unparenthesised-iterable-tuple"
     if cls == "REJECT" and "can't delete ()" in str(detail) and any(isinstance(n, ast.Delete) and any(isinstance(t, (ast.Tuple, ast.List)) and not t.elts for t in n.targets) for n in nodes):
         return "REJECT/Delete/empty-tuple-or-list-target"
-    if cls == "REJECT" and surface and str(detail).startswith("code: ") and re.search(r"(?<![\w.])(e|err|o|out|a|all|\d)>(p|e|o|err|out|\d)\w", text) and any(isinstance(n, ast.Compare) for n in nodes):
+    if cls == "REJECT" and surface and str(detail).startswith("code: ") and re.search(r"(?<![\w.])(e|err|o|out|a|all|\d)>(p|e|o|err|out|\d)[\w.]", text) and any(isinstance(n, ast.Compare) for n in nodes):
         return "REJECT/surface/redirect-like-comparison-followed-by-more-name-characters"
     if cls == "DIFF" and k1 == "With.items" and re.search(r"\bwith\s*\(", text):
         return "DIFF/With.items/parenthesised-items"
@@ -353,7 +374,7 @@ def named_mechanism(cls, key, small, mode, detail=None):
         return "REJECT/Assign/unparenthesised-starred-tuple-value"
     if cls == "REJECT" and surface and re.search(r"\b(and|or|not|in|is|if|else)[-+~]", text) and isinstance(root, (ast.BoolOp, ast.UnaryOp, ast.Compare, ast.IfExp)):
         return "REJECT/surface/unary-operator-glued-to-keyword"
-    if cls == "REJECT" and isinstance(root, (ast.FunctionDef, ast.AsyncFunctionDef, ast.Lambda)) and not root.decorator_list if not isinstance(root, ast.Lambda) else False:
+    if cls == "REJECT" and isinstance(root, (ast.FunctionDef, ast.AsyncFunctionDef, ast.Lambda)) and (isinstance(root, ast.Lambda) or not root.decorator_list or str(detail).startswith("code: :")):
         a = root.args
         if (a.kwarg is not None and a.kwarg.annotation is not None) or (a.vararg is not None and a.vararg.annotation is not None):
             if a.vararg is not None or a.kwarg is not None:
@@ -475,7 +496,7 @@ def directed_cases():
         "{a, *b}\n", "{*a}\n", "{*a, *b}\n", "[a, *b]\n", "(a, *b)\n", "{**a, 'k': 1}\n",
         # witnesses of findings first seen by the thorough tier
         "(x or[])\n", "x and(y)\n", "x or-1\n", "type x=x and-x\n", "(x[x:=0])\n", "x[(y:=0)]\n", "match x := x,:\n    case y as v,:\n        pass\n",
-        "x = f'a \\\nb'\n", "(f'{x\n- x}')\n", "(f'\\N{AMPERSAND}')\n", "(f'\\N{GREEK CAPITAL LETTER DELTA}')\n", "f'{x:\\n}'\n", "\fx = f\"Passed {x=}\"\n", "def fn(y):\n    f'{yield}'\n", "x(*x or x)\n", "x(*x if x else x, default=x)\n", "for x in x, *x:\n    x\n", "del ()\n", "(x is not e>print.ls)\n", "a>pp\n", "(rf'a\\'b')\n", "\u05e2\u05b4\u05d1 = 1\n", "y = [(x for o in x)]\n", "match x:\n    case x([[{}]]):\n        0\n",
+        "x = f'a \\\nb'\n", "(f'{x\n- x}')\n", "(f'\\N{AMPERSAND}')\n", "(f'\\N{GREEK CAPITAL LETTER DELTA}')\n", "f'{x:\\n}'\n", "\fx = f\"Passed {x=}\"\n", "def fn(y):\n    f'{yield}'\n", "x(*x or x)\n", "x(*x if x else x, default=x)\n", "for x in x, *x:\n    x\n", "del ()\n", "(x is not e>print.ls)\n", "a>pp\n", "2>1.5\n", "f'{x:{x:}}'\n", "@d\ndef f(self: A, *args: A, **kw: A) -> A:\n    pass\n", "(rf'a\\'b')\n", "\u05e2\u05b4\u05d1 = 1\n", "y = [(x for o in x)]\n", "match x:\n    case x([[{}]]):\n        0\n",
         "def f(a, *args: T, **kw: T): pass\n", "def f(*args: T): pass\n", "def f(**kw: T): pass\n", "def f(*, a: T = 1): pass\n",
         "def f(a, /, b, *, c): pass\n", "def f(a=1, /, b=2, *c, d, e=3, **f) -> int: pass\n", "lambda a, /, b=1, *c, d, **e: 0\n",
         "with (a as b, c as d): pass\n", "with (a as b): pass\n", "with (a, b): pass\n", "with (a, b) as c: pass\n", "with a as b, c as d: pass\n",
